@@ -177,6 +177,20 @@ def run(ctx, R, tier):
         R.check(ok, "C01-R6", "%s|same-serializer" % what, "%s and %s are called on the same serializer object" % (enc, dec), g.loc(),
                 "the %s uses one serializer for the call and possibly another for the result: the type mapping of arguments and results can differ" % what)
 
+    # ... and the client refuses a reply that was encoded by a different serializer instead of decoding it with its own
+    inv = ctx.fn("Pyro5.client.Proxy._pyroInvoke")
+    icfg = ctx.cfg(inv)
+    decs = [n for c, _ in ctx.cg.calls_of(inv) if isinstance(c.func, ast.Attribute) and c.func.attr == "loads" for n in ctx.node_of(inv, c)]
+
+    def same_id(atom, pol):
+        if isinstance(atom, ast.Compare) and len(atom.ops) == 1 and all(unparse(x).endswith(".serializer_id") for x in (atom.left, atom.comparators[0])) \
+                and unparse(atom.left) != unparse(atom.comparators[0]):
+            return (isinstance(atom.ops[0], ast.NotEq) and pol is False) or (isinstance(atom.ops[0], ast.Eq) and pol is True)
+        return False
+    ok = bool(decs) and all(icfg.guarded(n, lambda e: edge_has_fact(e, same_id)) for n in decs)
+    R.check(ok, "C01-R6", "client|reply-serializer-id-checked", "the reply is decoded only after its serializer id was found equal to the request's", inv.loc(),
+            "the reply's payload can be decoded although its serializer id differs from the one the call was encoded with (the mismatch test or its raise is gone)")
+
     sers = ctx.cg.serializer_classes()
     if len(sers) < 4:
         raise AnalysisError("fewer serializer classes than expected (%d)" % len(sers))
